@@ -44,3 +44,23 @@ func TestDbgScenario(t *testing.T) {
 		}
 	}
 }
+
+// TestDbgC05 replays one named C05 scenario (VERIF_DBG=<name>, VERIF_DBG_N=<repetitions>).
+func TestDbgC05(t *testing.T) {
+	name := os.Getenv("VERIF_DBG")
+	if name == "" {
+		t.Skip()
+	}
+	n := 1
+	fmt.Sscan(os.Getenv("VERIF_DBG_N"), &n)
+	for _, sc := range c05Scenarios() {
+		if sc.Name != name {
+			continue
+		}
+		for i := 0; i < n; i++ {
+			res := runC05(sc)
+			fmt.Printf("run %d: connectErr=%q tries=%d took=%v got=%d/%d,%d/%d readErr=%v writeErr=%v\n", i, res.ConnectErr, res.Tries, res.Took,
+				len(res.Got[1]), len(res.Sent[0]), len(res.Got[0]), len(res.Sent[1]), res.ReadErr, res.WriteErr)
+		}
+	}
+}
